@@ -156,6 +156,13 @@ func (tw *tokenWorld) exchange(ch *kernel.Chooser) string {
 	if actor != nil {
 		form.Set("actor_token", actor.str)
 		form.Set("actor_token_type", string(actor.declared))
+		if ch.Bool(1, 4) {
+			// the type is left out (RFC 8693 2.1: required whenever an actor token is present): a token of no declared
+			// type is not a valid actor token, whatever it is
+			form.Del("actor_token_type")
+			actor.live, actor.kind = false, actor.kind+"-type-omitted"
+			tw.o.Probe("actor-token-without-its-type")
+		}
 	}
 	scopes := ch.Subset([]string{oidc.ScopeOpenID, oidc.ScopeEmail, oidc.ScopeProfile, "api"})
 	if len(scopes) > 0 {
